@@ -93,7 +93,7 @@ Next ==
      /\ UNCHANGED <<cs, k, amb, vj, v1, ph, r1>>
   \/ /\ ph = 1 /\ ~Live /\ vj # 0
      /\ ph' = 2
-     /\ r1' = [halted |-> m.halted, fault |-> m.fault, res |-> Result(Cases[cs], m), steps |-> m.steps]
+     /\ r1' = [halted |-> m.halted, fault |-> m.fault, res |-> Result(Cases[cs], m), steps |-> m.steps, cyc |-> m.cyc]
      /\ m' = Boot(Cases[cs], vj, Cases[cs].inputs[k].inp, amb)
      /\ UNCHANGED <<cs, k, amb, vj, v1>>
 Spec == Init /\ [][Next]_vars
@@ -120,6 +120,8 @@ PairOK ==
   ELSE /\ m.halted
        /\ m.fault = r1.fault
        /\ Result(Cases[cs], m) = r1.res
+       \* timing cases (C18): variant 1 contains csleep(n), variant 2 is the same program without it
+       /\ (Cases[cs].cycdiff >= 0 => r1.cyc - m.cyc = Cases[cs].cycdiff)
 
 Tag == [id |-> Cases[cs].id, k |-> k, amb |-> amb, v1 |-> Cases[cs].variants[v1].name,
         vj |-> IF vj = 0 THEN "" ELSE Cases[cs].variants[vj].name]
@@ -130,6 +132,7 @@ Report ==
                                         got |-> Result(Cases[cs], m), want |-> Ex, A |-> m.A]))
     /\ (vj # 0 /\ ~PairOK) =>
          PrintT("MM " \o ToJson(Tag @@ [kind |-> "pair", halted |-> m.halted, fault |-> m.fault, steps |-> m.steps,
-                                        got |-> Result(Cases[cs], m), want |-> r1.res, fault1 |-> r1.fault, steps1 |-> r1.steps]))
+                                        got |-> Result(Cases[cs], m), want |-> r1.res, fault1 |-> r1.fault, steps1 |-> r1.steps,
+                                        cyc |-> m.cyc, cyc1 |-> r1.cyc]))
     /\ (vj # 0 /\ ~r1.halted) => PrintT("CUT " \o ToJson(Tag))
 =============================================================================
